@@ -26,7 +26,11 @@ def to_np(m): return np.array([[complex(float(z[0]), float(z[1])) for z in row] 
 
 def problem(rnd, hermitian, k=None):
     while True:
-        P = B.gen_problem(rnd, hermitian)
+        force = None
+        if rnd.random() < 0.2:      # shapes a random draw meets too rarely: an identically zero H_0 block in any position
+            cands = [dd for dd in B.DESIGNED if dd["hermitian"] == hermitian and 0 in dd.get("E", [1]) and "variant" not in dd or dd.get("variant", {}).get("designation") == "indices" and dd["hermitian"] == hermitian and 0 in dd.get("E", [1])]
+            if cands: force = {kk: vv for kk, vv in rnd.choice(cands).items() if kk != "variant"}
+        P = B.gen_problem(rnd, hermitian, force)
         if k is not None and P["k"] != k: continue
         if not hermitian and B.d5_class(P): continue
         if max(abs(e[0]) for e in [P["terms"][(0,) * P["k"]][a][a] for a in range(P["d"])]) > 1000: continue   # keep the offset stratum out of the rotations
@@ -44,6 +48,8 @@ def run(Q, maxn, exact=False, carrier="dense", vectors=None):
         real = all(np.abs(m.imag).max() == 0 for m in Q["terms"].values())
         conv = (lambda m: sparse.csr_array(m)) if carrier == "sparse" else (lambda m: m)
         H = {n: conv(m.real.copy() if real else m) for n, m in Q["terms"].items()}
+        z0 = (0,) * len(next(iter(Q["terms"])))
+        if Q.get("int_h0") and np.all(Q["terms"][z0] == np.rint(Q["terms"][z0].real)): H[z0] = conv(np.rint(Q["terms"][z0].real).astype(int))     # an integer-typed H_0
     kw = dict(subspace_eigenvectors=vectors) if vectors is not None else dict(subspace_indices=blocks)
     if Q.get("atol") is not None: kw["atol"] = Q["atol"]
     Ht, U, Ui = block_diagonalize(H, fully_diagonalize=Q["fd"], hermitian=Q["hermitian"], **kw)
@@ -142,7 +148,8 @@ def main(seed, ncases, driver, out):
         k, d, N = P["k"], P["d"], P["N"]
         maxn = (3,) if k == 1 else (2, 2)
         if exact: maxn = (2,) if k == 1 else (1, 1)
-        Q = copy.deepcopy(P); maxq = maxn; vectors = None; rel = None; post = lambda name, m: m
+        if rnd.random() < 0.3: P["int_h0"] = True        # (the base problem only: the transformed one is built from float arrays)
+        Q = copy.deepcopy(P); Q.pop("int_h0", None); maxq = maxn; vectors = None; rel = None; post = lambda name, m: m
         rng = np.random.default_rng(rnd.randrange(2**31)); carrier = rnd.choice(["dense", "sparse"])
         try:
             if tr == "scale":
@@ -201,6 +208,8 @@ def main(seed, ncases, driver, out):
                 rel = lambda base, name, n: base[(name, n)].conj()
             elif tr == "shift":
                 cshift = rnd.choice([1.0, -2.5, 0.125, float(2 ** 17), float(2 ** 17), float(2 ** 18)]); z = (0,) * k      # large shifts: level spacings far below 1e-5 of the level values
+                E0s = np.diag(P["terms"][z]).real; gaps = [abs(E0s[a] - E0s[b]) for a in range(d) for b in range(d) if P["blocks"][a] != P["blocks"][b]]
+                if gaps and min(gaps) / (np.abs(E0s).max() + abs(cshift)) < 3e-5: cshift = rnd.choice([1.0, -2.5, 0.125, 1024.0])     # keep gap / |energy| above the relative degeneracy threshold 1e-5
                 Q["terms"] = dict(P["terms"]); Q["terms"][z] = P["terms"][z] + cshift * np.eye(d)
                 if np.abs(np.diag(Q["terms"][z])).max() == 0: Q["terms"][z] = Q["terms"][z] + np.eye(d); cshift += 1
                 rel = lambda base, name, n: base[(name, n)] + (cshift * np.eye(d) if name == "H_tilde" and not any(n) else 0)
